@@ -32,6 +32,9 @@ def run(cx):
     rule_names(cx, em, pm, im, crl, fields)
     from . import c07
     c07.rule_decl_siblings(cx, "C14-DECL-SIBLINGS")
+    # the last leg of "requested": the library list reaches platformio.ini entry by entry
+    from . import c13
+    c13.rule_libs(cx, mod("toolchain/pio.py"), "C14-INI-LIBS")
 
 
 def rule_agree(cx, rid, libs_only=False):
